@@ -69,25 +69,100 @@ Ltac t_X :=
   | |- _ => (eapply X_frame; [ | | | | eassumption]); frame_eq
   end.
 
+(* ---- no task lists an operation twice ------------------------------------------------------------------ *)
+Definition XN (s : state) : Prop := forall t, NoDup (map snd (t_ops (get_task s t))).
+
+Lemma XN_frame : forall s s', s_tasks s' = s_tasks s -> XN s -> XN s'.
+Proof. intros s s' E H t. rewrite (get_task_frame _ _ _ E). apply H. Qed.
+Lemma XN_upd_task : forall s t f, NoDup (map snd (t_ops (f (get_task s t)))) -> XN s -> XN (upd_task t f s).
+Proof.
+  intros s t f Hn H t'. rewrite get_task_upd_task. destruct (Nat.eqb t' t) eqn:E; [|apply H].
+  exact Hn.
+Qed.
+Lemma XN_newtask : forall s x, t_ops x = [] -> XN s -> XN (s <| s_ntasks ::= S |> <| s_tasks ::= fun l => l ++ [(s_ntasks s, x)] |>).
+Proof.
+  intros s x Hx H t. unfold get_task. cbn. rewrite (aget_app Nat.eqb). specialize (H t). unfold get_task in H.
+  destruct (aget Nat.eqb t (s_tasks s)); [exact H|]. cbn. destruct (Nat.eqb t (s_ntasks s)); [rewrite Hx; constructor|constructor].
+Qed.
+Lemma NoDup_snd_filter : forall (l : list (iref * nat)) g, NoDup (map snd l) -> NoDup (map snd (filter g l)).
+Proof.
+  induction l as [|[i o] l IH]; intros g H; cbn; [constructor|]. inversion H; subst.
+  destruct (g (i, o)); cbn; [constructor|]; auto. intro Hin. apply H2. apply in_map_iff in Hin. destruct Hin as [[i' o'] [E Hin]].
+  apply filter_In in Hin. cbn in E. subst. apply in_map_iff. exists (i', o). split; [reflexivity|tauto].
+Qed.
+Lemma map_snd_retarget : forall (l : list (iref * nat)) (g : iref -> iref), map snd (map (fun '(i, o) => (g i, o)) l) = map snd l.
+Proof. induction l as [|[i o] l IH]; intro g; cbn; [reflexivity|]. rewrite IH. reflexivity. Qed.
+
+Ltac t_XN :=
+  lazymatch goal with
+  | |- XN (upd_task _ _ _) =>
+    apply XN_upd_task; [ | assumption];
+    first [ (match goal with H : XN _ |- _ => exact (H _) end)
+          | (cbn; apply NoDup_snd_filter; match goal with H : XN _ |- _ => exact (H _) end)
+          | (cbn; assumption) ]
+  | |- XN (set s_tasks _ (set s_ntasks S _)) => apply XN_newtask; [reflexivity | assumption]
+  | |- _ => (eapply XN_frame; [ | eassumption]); frame_eq
+  end.
+
+(* ---- operations belong to tasks that were created ----------------------------------------------------------- *)
+Definition OT (s : state) : Prop := forall o x, In (o, x) (s_ops s) -> (o_task x < s_ntasks s)%nat.
+
+Lemma OT_frame : forall s s', s_ops s' = s_ops s -> s_ntasks s' = s_ntasks s -> OT s -> OT s'.
+Proof. unfold OT. intros s s' -> ->. auto. Qed.
+Lemma OT_upd_op : forall s o f, (forall y, o_task (f y) = o_task y) -> OT s -> OT (upd_op o f s).
+Proof.
+  unfold OT, upd_op. intros s o f Hf H o' x. destruct (aget Nat.eqb o (s_ops s)) eqn:E; [|apply H]. cbn.
+  intro Hin. apply In_aset in Hin. destruct Hin as [[_ ->]|Hin]; [|eapply H; exact Hin].
+  rewrite Hf. apply (H o). apply (aget_In Nat.eqb nat_eqb_eq). exact E.
+Qed.
+Lemma OT_newop : forall s t prio i m, (t < s_ntasks s)%nat -> OT s ->
+  OT (s <| s_nops ::= S |> <| s_ops ::= fun l => l ++ [(s_nops s, mkOper t prio i 0 m None)] |>).
+Proof.
+  unfold OT. intros s t prio i m Ht H o x. cbn. intro Hin. apply in_app_or in Hin. destruct Hin as [Hin|[Heq|[]]]; [eapply H; exact Hin|].
+  inversion Heq; subst. exact Ht.
+Qed.
+Lemma OT_delop : forall s o, OT s -> OT (s <| s_ops := adel Nat.eqb o (s_ops s) |>).
+Proof. unfold OT. intros s o H o' x. cbn. intro Hin. apply In_adel in Hin. eapply H; exact Hin. Qed.
+Lemma OT_newtask : forall s x, OT s -> OT (s <| s_ntasks ::= S |> <| s_tasks ::= fun l => l ++ [(s_ntasks s, x)] |>).
+Proof. unfold OT. intros s x H o y. cbn. intro Hin. specialize (H _ _ Hin). lia. Qed.
+Lemma OT_alive : forall s o, OT s -> op_alive s o = true -> (tsk s o < s_ntasks s)%nat.
+Proof.
+  unfold OT, op_alive, tsk, get_op. intros s o H Ha. destruct (aget Nat.eqb o (s_ops s)) eqn:E; [|discriminate].
+  apply (H o). apply (aget_In Nat.eqb nat_eqb_eq). exact E.
+Qed.
+
+Ltac t_OT :=
+  lazymatch goal with
+  | |- OT (upd_op _ _ _) => apply OT_upd_op; [intros ?; reflexivity | assumption]
+  | |- OT (set s_ops _ (set s_nops S _)) => apply OT_newop; [first [assumption | lia] | assumption]
+  | |- OT (set s_ops (fun _ => adel Nat.eqb _ _) _) => apply OT_delop; assumption
+  | |- OT (set s_tasks _ (set s_ntasks S _)) => apply OT_newtask; assumption
+  | |- _ => (eapply OT_frame; [ | | eassumption]); frame_eq
+  end.
+
 (* the part of the invariant that does not mention calls and idle lists *)
-Definition XS (ext : list nat) (s : state) : Prop := St s /\ ON s /\ NPh s /\ X ext s.
+Definition XS (ext : list nat) (s : state) : Prop := St s /\ ON s /\ NPh s /\ XN s /\ OT s /\ X ext s.
 
 Lemma XS_X : forall ext s, XS ext s -> X ext s. Proof. unfold XS. tauto. Qed.
+Lemma XS_XN : forall ext s, XS ext s -> XN s. Proof. unfold XS. tauto. Qed.
+Lemma XS_OT : forall ext s, XS ext s -> OT s. Proof. unfold XS. tauto. Qed.
+Lemma XS_ON : forall ext s, XS ext s -> ON s. Proof. unfold XS. tauto. Qed.
+Lemma XS_NPh : forall ext s, XS ext s -> NPh s. Proof. unfold XS. tauto. Qed.
 Lemma XS_St : forall ext s, XS ext s -> St s. Proof. unfold XS. tauto. Qed.
 Lemma XS_weaken : forall ext t s, XS ext s -> XS (t :: ext) s.
-Proof. unfold XS. intros ext t s [A [B [C D]]]. auto using X_weaken. Qed.
+Proof. unfold XS. intros ext t s [A [B [C [N [T D]]]]]. repeat (split; [assumption|]). apply X_weaken. exact D. Qed.
 
 Ltac t_XS :=
   intros;
   match goal with H : XS _ _ |- _ =>
-    let H1 := fresh "HS" in let H2 := fresh "HON" in let H3 := fresh "HNP" in let H4 := fresh "HX" in
-    destruct H as [H1 [H2 [H3 H4]]] end;
-  split; [ t_St | split; [ t_ON | split; [ t_NPh | t_X ] ] ].
+    let H1 := fresh "HS" in let H2 := fresh "HON" in let H3 := fresh "HNP" in let H4 := fresh "HX" in let H5 := fresh "HXN" in let H6 := fresh "HOT" in
+    destruct H as [H1 [H2 [H3 [H5 [H6 H4]]]]] end;
+  split; [ t_St | split; [ t_ON | split; [ t_NPh | split; [ t_XN | split; [ t_OT | t_X ] ] ] ] ].
 
 Lemma XS_new_inv : forall ext s i z, inv_exists s i = false -> i_path i <> [] -> XS ext s -> XS ext (s <| s_invs ::= fun l => l ++ [(i, new_inv z)] |>).
 Proof.
-  intros ext s i z H1 H2 [A [B [C D]]]. split; [apply St_new_inv; assumption|]. split; [eapply ON_frame; [ | |exact B]; reflexivity|].
-  split; [eapply NPh_frame; [|exact C]; reflexivity|apply X_invs_new; exact D].
+  intros ext s i z H1 H2 [A [B [C [N [T D]]]]]. split; [apply St_new_inv; assumption|]. split; [eapply ON_frame; [ | |exact B]; reflexivity|].
+  split; [eapply NPh_frame; [|exact C]; reflexivity|]. split; [eapply XN_frame; [|exact N]; reflexivity|]. split; [eapply OT_frame; [ | |exact T]; reflexivity|apply X_invs_new; exact D].
 Qed.
 
 Lemma XS_get_or_create_invocation : forall ext k p s, XS ext s -> XS ext (get_or_create_invocation k p s).
@@ -101,9 +176,10 @@ Qed.
 
 Lemma XS_remove_if_empty : forall ext i s, XS ext s -> XS ext (fst (remove_if_empty i s)).
 Proof.
-  intros ext i s H. pose proof H as [A [B [C D]]]. split; [apply St_remove_if_empty; exact A|].
+  intros ext i s H. pose proof H as [A [B [C [N [T D]]]]]. split; [apply St_remove_if_empty; exact A|].
   unfold remove_if_empty. destruct (_ && _); cbn [fst]; [|auto].
   split; [eapply ON_frame; [ | |exact B]; reflexivity|]. split; [eapply NPh_frame; [|exact C]; reflexivity|].
+  split; [eapply XN_frame; [|exact N]; reflexivity|]. split; [eapply OT_frame; [ | |exact T]; reflexivity|].
   apply X_invs_del; [destruct A as [_ [_ [Hn _]]]; exact Hn|exact D].
 Qed.
 
@@ -143,8 +219,8 @@ Lemma XS_assign_prim : forall ext w t s,
   (is_phantom w = false -> k_task (get_worker s w) = None) ->
   XS ext s -> XS ext (upd_worker w (fun k => k <| k_task := Some t |>) s).
 Proof.
-  intros ext w t s Hin Hkw Hkt [A [B [C D]]]. split; [apply St_upd_worker; exact A|]. split; [eapply ON_frame; [ | |exact B]; rewrite upd_worker_eq; reflexivity|].
-  split; [apply NPh_upd_worker; exact C|]. apply X_upd_worker; [| | |exact D]; cbn.
+  intros ext w t s Hin Hkw Hkt [A [B [C [N [T D]]]]]. split; [apply St_upd_worker; exact A|]. split; [eapply ON_frame; [ | |exact B]; rewrite upd_worker_eq; reflexivity|].
+  split; [apply NPh_upd_worker; exact C|]. split; [eapply XN_frame; [|exact N]; rewrite upd_worker_eq; reflexivity|]. split; [eapply OT_frame; [ | |exact T]; rewrite upd_worker_eq; reflexivity|]. apply X_upd_worker; [| | |exact D]; cbn.
   - intros t' Ht'. inversion Ht'; subst. right. exact Hin.
   - intros t0 Ht0. exfalso. destruct (is_phantom w) eqn:Ep.
     + (* a phantom id is not registered: the record read is the dummy *)
@@ -179,10 +255,10 @@ Lemma XS_enqueue : forall ext o s,
   op_alive s o = true -> In (tsk s o) ext -> ~ In o (v_qops (get_inv s (o_inv (get_op s o)))) ->
   XS ext s -> XS ext (enqueue o s).
 Proof.
-  intros ext o s Ha Hin Hnq [A [B [C D]]]. unfold enqueue. cbv zeta.
+  intros ext o s Ha Hin Hnq [A [B [C [N [T D]]]]]. unfold enqueue. cbv zeta.
   assert (H1 : XS ext (upd_inv (o_inv (get_op s o)) (fun v => v <| v_qops ::= fun l => l ++ [o] |>) s)).
   { split; [apply St_upd_inv; exact A|]. split; [eapply ON_frame; [ | |exact B]; rewrite upd_inv_eq; reflexivity|].
-    split; [eapply NPh_frame; [|exact C]; apply scqs_upd_inv|apply X_enq; assumption]. }
+    split; [eapply NPh_frame; [|exact C]; apply scqs_upd_inv|]. split; [eapply XN_frame; [|exact N]; rewrite upd_inv_eq; reflexivity|]. split; [eapply OT_frame; [ | |exact T]; rewrite upd_inv_eq; reflexivity|apply X_enq; assumption]. }
   set (s1 := upd_inv _ _ s) in *. clearbody s1. xs_go1.
 Qed.
 
